@@ -143,19 +143,48 @@ func runManagedStatus(o checks.Opts) *report.Report {
 	rep := report.New("C19", "managed-object-status")
 	shapes := statusShapes(!o.Quick())
 	rep.Bounds["status_shapes"] = len(shapes)
-	rep.Rule = "a managed Widget (controlled by the ObjectSet, condition mapping Ready => my/Ready, condition probe Ready=True) carries every status shape of the grammar {absent, null, \"\", \"x\", 0, 1.5, true, [], [s], {}, {k:s}} to depth 2, conditions lists with each condition field taking every base shape; one real ObjectSet pass (active and paused) and one real ObjectSetPhase pass per shape under recover(); plus availability probe specifications the schema accepts (CEL rules valid / syntax error / non-boolean / run-time error with and without message, fieldsEqual paths, condition probes, empty probes and selectors), each reconciled three times in one long-lived operator process; distinct = persisted Available status/reason or error class"
+	rep.Rule = "a managed Widget (controlled by the ObjectSet from its creation, or pre-existing with that status and adopted under collisionProtection None; condition mappings Ready / Progressing / Degraded => my/..., condition probe Ready=True) carries every status shape of the grammar {absent, null, \"\", \"x\", 0, 1.5, true, [], [s], {}, {k:s}} to depth 2, conditions lists with each condition field taking every base shape; three consecutive real ObjectSet passes (active and paused) and ObjectSetPhase passes per shape in one operator process under recover() (the owner's persisted status, mapped conditions included, is the next pass's input), plus lists of several well-formed conditions of which two are mapped; plus availability probe specifications the schema accepts (CEL rules valid / syntax error / non-boolean / run-time error with and without message, fieldsEqual paths, condition probes, empty probes and selectors), each reconciled three times in one long-lived operator process; distinct = persisted Available status/reason or error class"
+	// several conditions of which two are mapped, in every order, alone and next to an unmapped one
+	cond := func(t, st string) map[string]any {
+		return map[string]any{"type": t, "status": st, "reason": "Ok", "message": "fine", "observedGeneration": int64(1), "lastTransitionTime": "2026-01-01T00:00:00Z"}
+	}
+	for _, l := range [][]any{
+		{cond("Ready", "True"), cond("Progressing", "False")}, {cond("Progressing", "True"), cond("Ready", "False")},
+		{cond("Other", "True"), cond("Ready", "True"), cond("Progressing", "True")}, {cond("Ready", "True"), cond("Ready", "False")},
+		{cond("Progressing", "True")}, {cond("Ready", "True"), cond("Other", "True"), cond("Progressing", "True"), cond("Degraded", "False")},
+	} {
+		var names []string
+		for _, c := range l {
+			m := c.(map[string]any)
+			names = append(names, fmt.Sprint(m["type"], "=", m["status"]))
+		}
+		shapes = append(shapes, shape{"status{observedGeneration:1,conditions:[" + strings.Join(names, ",") + "]}", map[string]any{"observedGeneration": int64(1), "conditions": l}, true})
+	}
+	rep.Bounds["status_shapes"] = len(shapes)
+	rep.Bounds["passes_per_case"] = 3
 	for i, sh := range shapes {
 		if o.Shards > 1 && i%o.Shards != o.Shard {
 			continue
 		}
-		for _, mode := range []string{"objectset", "objectset-paused", "phase"} {
+		for _, mode := range []string{"objectset", "objectset-paused", "phase", "objectset-adopting", "phase-adopting"} {
 			w := osw.NewWorld()
+			w.LongLived()
 			obj := world.Obj("Widget", "", "a", map[string]any{"x": int64(1)})
-			oso := corev1alpha1.ObjectSetObject{Object: *obj, ConditionMappings: []corev1alpha1.ConditionMapping{{SourceType: "Ready", DestinationType: "my/Ready"}}}
+			oso := corev1alpha1.ObjectSetObject{Object: *obj, ConditionMappings: []corev1alpha1.ConditionMapping{{SourceType: "Ready", DestinationType: "my/Ready"}, {SourceType: "Progressing", DestinationType: "my/Progressing"}, {SourceType: "Degraded", DestinationType: "my/Degraded"}}}
+			adopting := strings.HasSuffix(mode, "-adopting")
+			if adopting {
+				// the object is already there, status and all, before the owner's first pass
+				oso.CollisionProtection = corev1alpha1.CollisionProtectionNone
+				pre := world.Obj("Widget", world.NS, "a", map[string]any{"x": int64(1)})
+				if sh.Set {
+					pre.Object["status"] = runtime.DeepCopyJSONValue(sh.V)
+				}
+				w.MustCreate(pre)
+			}
 			var pass *world.Pass
 			var ownKey kmodel.Key
-			switch mode {
-			case "phase":
+			switch {
+			case strings.HasPrefix(mode, "phase"):
 				w.MustCreate(&corev1alpha1.ObjectSetPhase{ObjectMeta: metav1.ObjectMeta{Name: "r1", Namespace: world.NS, Labels: map[string]string{corev1alpha1.ObjectSetPhaseClassLabel: world.PhaseClass}},
 					Spec: corev1alpha1.ObjectSetPhaseSpec{Revision: 1, Objects: []corev1alpha1.ObjectSetObject{oso}, AvailabilityProbes: world.StdProbes()}})
 				ownKey = world.PKOKey("ObjectSetPhase", world.NS, "r1")
@@ -165,36 +194,44 @@ func runManagedStatus(o checks.Opts) *report.Report {
 				ownKey = osw.OSKey("r1")
 			}
 			ctrl := world.CtrlObjectSet
-			if mode == "phase" {
+			if strings.HasPrefix(mode, "phase") {
 				ctrl = world.CtrlPhase
 			}
-			w.Reconcile(ctrl, osw.NN("r1"), nil) // creates the object
 			k := world.KeyOf("Widget", world.NS, "a")
-			if w.S.Objs[k] == nil {
-				rep.Fault = "setup: object not created in mode " + mode
-				return rep
+			if !adopting {
+				w.Reconcile(ctrl, osw.NN("r1"), nil) // creates the object
+				if w.S.Objs[k] == nil {
+					rep.Fault = "setup: object not created in mode " + mode
+					return rep
+				}
+				// the workload controller writes an arbitrary status
+				c := runtime.DeepCopyJSON(w.S.Objs[k].Content)
+				if sh.Set {
+					c["status"] = runtime.DeepCopyJSONValue(sh.V)
+				} else {
+					delete(c, "status")
+				}
+				w.S.Objs[k].Content = c
 			}
-			// the workload controller writes an arbitrary status
-			c := runtime.DeepCopyJSON(w.S.Objs[k].Content)
-			if sh.Set {
-				c["status"] = runtime.DeepCopyJSONValue(sh.V)
-			} else {
-				delete(c, "status")
-			}
-			w.S.Objs[k].Content = c
 			if mode == "objectset-paused" {
 				osw.SetLifecycle(w, "r1", "Paused")
 			}
-			pass = w.Reconcile(ctrl, osw.NN("r1"), nil)
-			rep.Executions++
-			rep.ImplTraces++
-			out := "error"
-			if pass.Panic != "" {
-				out = "panic"
-				rep.AddViolation(report.Violation{Identity: panicIdentity(pass.Panic) + " [" + mode + "]", Message: fmt.Sprintf("a managed object with %s crashes the %s controller:\n%s", sh.Name, mode, firstLines(pass.Panic, 14)), Params: map[string]any{"shape": sh.Name, "mode": mode}})
-			} else if pass.Err == nil {
-				st, reason, _, _ := world.Condition(w.S.Objs[ownKey].Content, "Available")
-				out = st + "/" + reason
+			// three passes: what one pass persisted in the owner's status (mapped conditions
+			// among its own) is what the next one starts from
+			out := ""
+			for n := 1; n <= 3; n++ {
+				pass = w.Reconcile(ctrl, osw.NN("r1"), nil)
+				rep.Executions++
+				rep.ImplTraces++
+				out = "error"
+				if pass.Panic != "" {
+					out = "panic"
+					rep.AddViolation(report.Violation{Identity: panicIdentity(pass.Panic) + " [" + mode + "]", Message: fmt.Sprintf("a managed object with %s crashes the %s controller in pass %d:\n%s", sh.Name, mode, n, firstLines(pass.Panic, 14)), Params: map[string]any{"shape": sh.Name, "mode": mode}})
+					break
+				} else if pass.Err == nil {
+					st, reason, _, _ := world.Condition(w.S.Objs[ownKey].Content, "Available")
+					out = st + "/" + reason
+				}
 			}
 			rep.Outcomes[mode+" "+out]++
 		}
